@@ -1,7 +1,7 @@
 """C12 -- a Textgrid is an ordered, uniquely-named tier map and edits act tier-wise."""
 import itertools
 from .. import core, gen, tgops
-from . import c06, c07, c08, c09
+from . import c06, c07, c08, c09, c10
 
 ID = "C12"
 MODULE = "Check.C12Check"
@@ -76,14 +76,14 @@ def generate(tier, rng):
         ops = [_rand_op(rng, 4) for _k in range(rng.randint(1, 6))]
         cases.append({"op": "tghist", "g": g0, "args": {"ops": ops}, "scale": ["dyadic", 1]})
     # tier-wise edits: reuse the textgrid-level generators of C06-C09
-    for mod, ops in ((c06, ("tgcrop",)), (c07, ("tgerase",)), (c08, ("tgspace",)), (c09, ("tgedit",))):
+    for mod, ops in ((c06, ("tgcrop",)), (c07, ("tgerase",)), (c08, ("tgspace",)), (c09, ("tgedit",)), (c10, ("mergeTiers",))):
         sub = [c for c in mod.generate("quick", rng) if c["op"] in ops]
         for c in sub[: (60 if tier == "quick" else 100000)]:
             cases.append({"op": "tierwise", "via": mod.ID, "case": c, "scale": c["scale"]})
     return cases
 
 
-_MODS = {"C06": c06, "C07": c07, "C08": c08, "C09": c09}
+_MODS = {"C06": c06, "C07": c07, "C08": c08, "C09": c09, "C10": c10}
 
 
 def run(case):
